@@ -421,6 +421,19 @@ def corpus():
     for F in (None, ["a"], ["a/p"], ["q"], ["a/l", "q"]):
         out.append(mk(a, b, F=F))
     out.append(mk(a, b, F=None, incl=True))
+    # W5: cross-tree children closure: S is inside D in one tree and outside in the other, and has children
+    # that exist only in the tree where it is outside D (found only by going back to the first tree)
+    a = [R, e(1, 0, "D", D), e(2, 1, "S", D), e(3, 2, "o")]
+    b = [R, e(1, 0, "D", D), e(2, 0, "S", D), e(3, 2, "o"), e(4, 2, "n", content=b"2"), e(5, 2, "m", D), e(6, 5, "k")]
+    for F in (["D"], ["D/S"], ["D", "S/n"], None):
+        for incl in (False, True):
+            out.append(mk(a, b, F=F, incl=incl))
+            out.append(mk(b, a, F=F, incl=incl))
+    # W6: file modified in place below a directory whose ancestor was renamed, file-level filter
+    a = [R, e(1, 0, "p", D), e(2, 1, "d", D), e(3, 2, "f", content=b"1"), e(4, 2, "g", ex=False), e(5, 2, "l", SY, target="t1")]
+    b = [R, e(1, 0, "q", D), e(2, 1, "d", D), e(3, 2, "f", content=b"2"), e(4, 2, "g", ex=True), e(5, 2, "l", SY, target="t2")]
+    for F in (["q/d/f"], ["p/d/f"], ["q/d/g"], ["p/d/l"], ["p/d/f", "q/d/g"], ["q/d"]):
+        out.append(mk(a, b, F=F))
     # the dirstate fast path reports id 5 twice
     a = [R, e(1, 0, "d", FI, b""), e(2, 0, "c", D), e(3, 2, "a", FI, b""), e(4, 2, "d", D), e(5, 0, "e", D)]
     b = [R, e(1, 0, "d", FI, b""), e(2, 0, "c", D), e(5, 2, "c", D), e(6, 2, "a", FI, b"2")]
@@ -428,7 +441,54 @@ def corpus():
     return out
 
 
+def shaped(rng):
+    """random instances of two shapes that plain edit scripts rarely hit"""
+    R = list(ROOT)
+    if rng.random() < 0.5:
+        # S inside D on one side, outside on the other; children of S that exist on one side only
+        nm = rng.sample(NAMES, 4)
+        a = [R, e(1, 0, nm[0], D), e(2, 1, nm[1], D)]
+        b = [R, e(1, 0, nm[0], D), e(2, 0, nm[1], D)]
+        nid = 3
+        for k in range(rng.randint(1, 3)):
+            ent = _new_entry(rng, nid, 2, NAMES[k])
+            side = rng.choice("abx")
+            if side in "ax":
+                a.append(list(ent))
+            if side in "bx":
+                b.append(list(ent))
+            nid += 1
+        if rng.random() < 0.4:
+            b.append(e(nid, 0, nm[2], D)); b[2][1] = nid   # S below another new directory
+        if rng.random() < 0.5:
+            a, b = b, a
+        F = [rng.choice([nm[0], nm[0], nm[0] + "/" + nm[1], nm[1]])]
+        return sorted(a), sorted(b), [], F
+    # chain of directories, an ancestor renamed or moved, a leaf modified in place; file-level filter
+    depth = rng.randint(1, 3)
+    a, b = [R], [R]
+    par = 0
+    for k in range(1, depth + 1):
+        a.append(e(k, par, NAMES[k], D)); b.append(e(k, par, NAMES[k], D)); par = k
+    ren = rng.randint(1, depth)
+    b[ren][2] = "e" if b[ren][2] != "e" else "a"
+    leaf = depth + 1
+    kind = rng.choice([FI, FI, SY])
+    a.append(norm_entry([leaf, par, "f", kind, b"1", False, "t1"]))
+    how = rng.choice(["content", "exec", "same"])
+    b.append(norm_entry([leaf, par, "f", kind, b"2" if how == "content" else b"1", how == "exec", "t2" if how == "content" else "t1"]))
+    if rng.random() < 0.5:
+        a.append(e(leaf + 1, par, "g")); b.append(e(leaf + 1, par, "g"))
+    pa, pb = tpaths(a), tpaths(b)
+    F = [rng.choice([pa[leaf], pb[leaf]])]
+    return a, b, [], F
+
+
 def cases(rng, tier):
+    for _ in range(24 if tier == "quick" else 200):
+        a, b, extras, F = shaped(rng)
+        if invalid(a) is None and invalid(b) is None:
+            yield mk(a, b, extras, F, rng.random() < 0.3, False, False)
     npairs = 65 if tier == "quick" else 400
     for pi in range(npairs):
         n = rng.choice([2, 3, 4, 5, 6, 7]) if pi % 4 else rng.choice([2, 3])
@@ -673,8 +733,10 @@ def violations(inp, obs):
         tags.add("differs:chk/generic_rt")
     if key(obs[4]) != key(obs[2]):
         tags.add("differs:dirstate/generic_wt")
-    if key(obs[5]) != key(obs[2]):
-        tags.add("differs:generic_wtb/generic_wt")
+    # generic walker on (basis tree object, wt): DirStateWorkingTree.paths2ids may select more ids than the
+    # generic paths2ids, so this run may report more -- never less, and (checked below) only correct changes
+    if not {json.dumps(c, default=repr) for c in obs[2][0]} <= {json.dumps(c, default=repr) for c in obs[5][0]}:
+        tags.add("wtb-misses-generic_wt-change")
     if [x[0] for x in obs[2][0]] != [x[0] for x in obs[0][0]] or key([obs[2][0], []]) != key([obs[0][0], []]):
         tags.add("differs:generic_wt/generic_rt")
     spec_all = {c[0]: c for c in spec_changes(a, b, True)}
@@ -722,10 +784,10 @@ FINDING_OF_TAG = {}
 
 
 def _finding_of(tag, inp):
+    """still-known findings only (C10-precise-ids-duplicate, C10-chk-include-unchanged and
+    C10-generic-dirstate-paths2ids were repaired in /repo: 5cddeb1, b515e80, b7b83f3)"""
     filt = inp["F"] is not None
-    if tag in ("dup:generic_rt", "dup:chk", "dup:generic_wt") and filt:
-        return "C10-precise-ids-duplicate"
-    if tag.startswith("invalid:") and tag.endswith(":dup-name") and filt and tag.split(":")[1] in ("generic_rt", "chk", "generic_wt", "generic_wtb", "dirstate"):
+    if tag.startswith("invalid:") and tag.endswith(":dup-name") and filt:
         return "C10-filtered-path-collision"
     if tag == "differs:dirstate/generic_wt" and filt:
         return "C10-dirstate-filter-closure-differs"
@@ -733,12 +795,8 @@ def _finding_of(tag, inp):
         return "C10-dirstate-duplicate"
     if tag == "crash:dirstate:AssertionError" and filt and _dir_to_nondir(inp):
         return "C10-dirstate-enotdir-crash"
-    if tag in ("differs:chk/generic_rt", "unsound:chk", "incomplete:chk") and inp["incl"]:
-        return "C10-chk-include-unchanged"
-    if tag in ("differs:generic_wtb/generic_wt", "unsound:generic_wtb", "incomplete:generic_wtb", "dup:generic_wtb") and filt:
-        return "C10-generic-dirstate-paths2ids"
-    if tag.startswith("invalid:generic_wtb:") and filt:
-        return "C10-generic-dirstate-paths2ids"
+    if tag == "differs:chk/generic_rt" and filt and inp["incl"]:
+        return "C10-chk-filtered-unchanged-parents"
     return None
 
 
